@@ -352,7 +352,7 @@ fn guarded<F: FnOnce() -> Value>(fun: F) -> Value {
 
 /// Runs `fun` on its own thread and gives up after `HANG_SECS`: a solver that never returns is
 /// reported as {"hang": true} (the stuck thread is abandoned and dies with the process).
-pub const HANG_SECS: u64 = 3;
+pub const HANG_SECS: u64 = 5;
 pub fn timed<F: FnOnce() -> Value + Send + 'static>(fun: F) -> Value {
     let (tx, rx) = std::sync::mpsc::channel();
     let h = std::thread::Builder::new().stack_size(64 << 20).spawn(move || {
